@@ -431,7 +431,7 @@ CHECKS = {
             C('surveyor', 'TestSurveyor', 'TraceSurveyor', n={'quick': 120, 'thorough': 1500}),
             C('respondent', 'TestRespondent', 'TraceRespondent', n={'quick': 40, 'thorough': 400}),
             T('MC_RawSock', 'Raw_xsurveyor.cfg'), R('xsurveyor', 'xsurveyor'), R('xrespondent', 'xrespondent'),
-            C('opts', 'TestOptions', 'TraceOptions', trivial_len=5, vtimeout=3000),
+            C('opts', 'TestOptions', 'TraceOptions', trivial_len=5, vtimeout=3000, env={'VERIF_OPTS_ONLY': 'surveyor'}),
         ],
         'assumptions': ASSUME_COMMON,
     },
